@@ -11,6 +11,7 @@ import Driver.AuthGate
 import Driver.Sync
 import Driver.Cache
 import Driver.Skeleton
+import Driver.Fold
 open Lean
 
 def dispatch (j : Json) : Json :=
@@ -25,6 +26,7 @@ def dispatch (j : Json) : Json :=
   | "sync" => Driver.handleSync j
   | "cache" => Driver.handleCache j
   | "skeleton" => Driver.handleSkeleton j
+  | "fold" => Driver.handleFold j
   | "ping" => Driver.obj [("r", Json.str "pong")]
   | _ => Driver.obj [("error", Json.str "bad-model")]
 
